@@ -125,7 +125,7 @@ func c18Check(c *Case) []Violation {
 	req := asM(roundTrip(c.Req))
 	bs := asL(req["biases"])
 	last := asM(bs[len(bs)-1])
-	props := asM(last["props"])
+	props := camelKeys(asM(last["props"]))
 	script := c18Script(c)
 	t := lastTransition(req, script)
 	if t.err != nil {
@@ -586,7 +586,14 @@ func c18Run(s *Shard) {
 					if !s.Take() {
 						continue
 					}
-					for _, v := range variants {
+					vlist := variants
+					if pi == 0 && variant <= 1 {
+						// the same options under the keys the README prints (ReferenceCriterionType, MixingRatio, ...)
+						for _, v := range variants {
+							vlist = append(vlist, bias(asS(v["name"]), pascalKeys(asM(v["props"]))))
+						}
+					}
+					for _, v := range vlist {
 						req := withBiases(root, append(append([]M{}, pre...), v))
 						for _, g := range gs {
 							c := &Case{Prop: "C18", Kind: "addition", Req: req, Params: M{"g": g}}
